@@ -25,6 +25,7 @@ import time
 import numpy as np
 
 PROP = "C20"
+CLOCK = "wall"  # the parent waits for child processes: its own CPU time says nothing
 LEVEL = "fault_enumeration"
 RULE = (
     "cases = (seed file, fault operator with parameters, loader entry point load/load_mesh/load_scene/"
